@@ -4,6 +4,7 @@ import EpModel.Model.Codec.NetIpv6Frag
 import EpModel.Model.Codec.NetIpv4
 import EpModel.Model.Codec.NetAuth
 import EpModel.Model.Codec.NetRawExt
+import EpModel.Model.Codec.NetIpv4Exts
 /- network-layer part of the `enc.*` family (C08): Ipv6Header, Ipv6FragmentHeader, Ipv4Header,
    IpAuthHeader, Ipv6RawExtHeader and their slice types.
 
@@ -12,7 +13,11 @@ import EpModel.Model.Codec.NetRawExt
      enc.t.rt <fields> <tail>        from_slice(to_bytes(v) ++ tail)
      enc.t.from_slice <hex>          all fields + rest window
      enc.t.redec <hex>               from_slice, to_bytes of the result, from_slice(bytes ++ rest)
-     enc.tslice.from_slice <hex>     every accessor of the slice type + to_header -/
+     enc.tslice.from_slice <hex>     every accessor of the slice type + to_header
+   composite ipv4exts (optional authentication header behind an IPv4 header):
+     enc.ipv4exts.write <start> (none | <auth fields>)      write, header_len, next_header
+     enc.ipv4exts.rt <start> (none | <auth fields>) <tail>  from_slice(start, write(v) ++ tail)
+     enc.ipv4exts.from_slice / redec / enc.ipv4extsslice.from_slice <start> <hex> -/
 namespace EpModel.Driver.EncNet
 open EpModel EpModel.Driver EpModel.CodecNet
 
@@ -336,8 +341,82 @@ def rawExtOps (op : String) (args : List String) : Option String :=
       pure s!"ok(slice={showWin 0 s.slice.length},nh={s.nextHeader},payload={showWin 2 s.payload.length},hdr={hdr})"
   | _, _ => none
 
+/-! ### Ipv4Extensions -/
+
+def extsFields (e : Ipv4Extensions) : String :=
+  match e.auth with
+  | none => "auth=none"
+  | some h => s!"auth=({authFields h})"
+
+def extsWalkErr : Ipv4ExtsWalkError → String
+  | .extNotReferenced m => s!"err(notreferenced({m}))"
+
+def extsValue (a : List String) : Option (Except String Ipv4Extensions) :=
+  match a with
+  | ["none"] => some (.ok { auth := none })
+  | a => do
+    match ← authValue a with
+    | .error e => pure (.error e)
+    | .ok h => pure (.ok { auth := some h })
+
+def extsDec (start : Nat) (b : Bytes) : String :=
+  match Ipv4Extensions.fromSlice start b with
+  | .error e => authErr e
+  | .ok (e, next, rest) => s!"ok({extsFields e},next={next},rest={restWin b rest})"
+
+def extsOps (op : String) (args : List String) : Option String :=
+  match op, args with
+  | "enc.ipv4exts.write", start :: a => do
+    let start ← argLt start 256
+    match ← extsValue a with
+    | .error e => pure e
+    | .ok e =>
+      let next := match e.nextHeader start with
+        | .ok n => s!"ok({n})"
+        | .error x => extsWalkErr x
+      match e.writeOut start with
+      | .error x => pure s!"{extsWalkErr x},len={e.headerLen},next={next}"
+      | .ok bytes => pure s!"ok(bytes={hexOfBytes bytes},len={e.headerLen},next={next})"
+  | "enc.ipv4exts.rt", start :: a => do
+    let start ← argLt start 256
+    let tail ← argHex (← a.getLast?)
+    match ← extsValue a.dropLast with
+    | .error e => pure e
+    | .ok e =>
+      match e.writeOut start with
+      | .error x => pure (extsWalkErr x)
+      | .ok bytes => pure (extsDec start (bytes ++ tail))
+  | "enc.ipv4exts.from_slice", [start, h] => do
+    pure (extsDec (← argLt start 256) (← argHex h))
+  | "enc.ipv4exts.redec", [start, h] => do
+    let start ← argLt start 256
+    let b ← argHex h
+    match Ipv4Extensions.fromSlice start b with
+    | .error e => pure (authErr e)
+    | .ok (e, _, rest) =>
+      match e.writeOut start with
+      | .error x => pure (extsWalkErr x)
+      | .ok bytes =>
+        let again := extsDec start (bytes ++ rest)
+        pure s!"ok(bytes={hexOfBytes bytes},again={again})"
+  | "enc.ipv4extsslice.from_slice", [start, h] => do
+    let start ← argLt start 256
+    let b ← argHex h
+    match Ipv4ExtensionsSlice.fromSlice start b with
+    | .error e => pure (authErr e)
+    | .ok (s, next, rest) =>
+      let a := match s.auth with
+        | none => "none"
+        | some a => showWin 0 a.slice.length
+      let hdr := match s.toHeader with
+        | some e => s!"({extsFields e})"
+        | none => "panic"
+      pure s!"ok(auth={a},empty={b01 s.auth.isNone},next={next},rest={restWin b rest},hdr={hdr})"
+  | _, _ => none
+
 def run (op : String) (args : List String) : Option String :=
   match op.splitOn "." with
+  | ["enc", "ipv4exts", _] | ["enc", "ipv4extsslice", _] => extsOps op args
   | ["enc", "ipv6", _] | ["enc", "ipv6slice", _] => ipv6Ops op args
   | ["enc", "ipv6frag", _] | ["enc", "ipv6fragslice", _] => fragOps op args
   | ["enc", "ipv4", _] | ["enc", "ipv4slice", _] => ipv4Ops op args
